@@ -498,6 +498,95 @@ theorem clear_spec (els : List Nat) (r w : Nat) (hi : Inv ⟨els, r, w⟩) :
   · apply List.eq_nil_of_length_eq_zero
     rw [abs_length]; rfl
 
+
+/-- A store through `IndexRef(pos)` for a position inside the queue replaces exactly that element. -/
+theorem indexSet_spec (els : List Nat) (r w : Nat) (hi : Inv ⟨els, r, w⟩) (p : Nat) (v : Nat) (hp : p < w - r) :
+    ∃ s', indexSet ⟨els, r, w⟩ p v = some s' ∧ Inv s' ∧ abs s' = (abs ⟨els, r, w⟩).set p v ∧
+      s'.elements.length = els.length := by
+  have hd := hi.dead
+  have h1 : r ≤ w := by have := hi.rw; simp only at this; omega
+  have h2 : w - r ≤ els.length := by have := hi.wc; simp only at this; omega
+  have h3 : r < els.length := by have := hi.rc; simp only at this; omega
+  simp only at hd
+  -- the physical cell
+  have hq : ∃ q : Nat, q < els.length ∧ q = phys ⟨els, r, w⟩ p ∧
+      indexSet ⟨els, r, w⟩ p v = some ⟨els.set q v, r, w⟩ := by
+    unfold indexSet
+    dsimp only
+    rw [if_neg (by omega)]
+    by_cases hc : r + p < els.length
+    · refine ⟨r + p, hc, ?_, ?_⟩
+      · simp only [phys, Int.toNat_natCast]; rw [if_pos hc]
+      · rw [if_pos (by omega), goSet_nat els _ (r + p) v (by omega) hc]
+    · refine ⟨r + p - els.length, by omega, ?_, ?_⟩
+      · simp only [phys, Int.toNat_natCast]; rw [if_neg hc]
+      · rw [if_neg (by omega), if_neg (by omega), goSet_nat els _ (r + p - els.length) v (by omega) (by omega)]
+  obtain ⟨q, hql, hqp, e⟩ := hq
+  have hqv : q = if r + p < els.length then r + p else r + p - els.length := by
+    rw [hqp]; simp only [phys, Int.toNat_natCast]
+  refine ⟨_, e, ⟨by simp, by simp only; omega, by simp only [List.length_set]; omega,
+    Or.inl (by simp only [List.length_set]; omega), ?_⟩, ?_, by simp⟩
+  · intro i hil hn1 hn2
+    simp only [List.length_set] at hil hn1 hn2
+    have hne : q ≠ i := by
+      rw [hqv]; by_cases hc : r + p < els.length
+      · rw [if_pos hc]; omega
+      · rw [if_neg hc]; omega
+    rw [List.getElem?_set, if_neg hne]
+    exact hd i hil hn1 hn2
+  · apply List.ext_getElem?
+    intro j
+    by_cases hj : j < w - r
+    · rw [abs_getElem? _ j (by simp only; omega), List.getElem?_set]
+      have hph : phys ⟨els.set q v, r, w⟩ j = phys ⟨els, r, w⟩ j := by simp [phys]
+      rw [hph]
+      by_cases hjp : p = j
+      · subst hjp
+        rw [if_pos rfl, if_pos (by rw [abs_length]; simp only; omega), ← hqp, getD_set_eq _ _ _ hql]
+      · rw [if_neg hjp, abs_getElem? _ j (by simp only; omega)]
+        have hne : q ≠ phys ⟨els, r, w⟩ j := by
+          rw [hqv]; simp only [phys, Int.toNat_natCast]
+          by_cases hc : r + p < els.length
+          · rw [if_pos hc]
+            by_cases hc2 : r + j < els.length
+            · rw [if_pos hc2]; omega
+            · rw [if_neg hc2]; omega
+          · rw [if_neg hc]
+            by_cases hc2 : r + j < els.length
+            · rw [if_pos hc2]; omega
+            · rw [if_neg hc2]; omega
+        rw [getD_set_ne _ _ _ _ hne]
+    · rw [List.getElem?_eq_none (by rw [abs_length]; simp only; omega),
+        List.getElem?_eq_none (by rw [List.length_set, abs_length]; simp only; omega)]
+
+theorem indexSet_neg (s : CS) (pos : Int) (v : Nat) (h : pos < 0) : indexSet s pos v = none := by
+  simp [indexSet, h]
+
+
+theorem goSet_length {l l' : List Nat} {i : Int} {x : Nat} (h : goSet l i x = some l') : l'.length = l.length := by
+  unfold goSet at h
+  split at h
+  · cases h
+  · split at h
+    · cases h; simp
+    · cases h
+
+theorem indexSet_length {s s' : CS} {pos : Int} {v : Nat} (h : indexSet s pos v = some s') :
+    s'.elements.length = s.elements.length := by
+  unfold indexSet at h
+  dsimp only at h
+  split at h
+  · cases h
+  · split at h
+    · split at h
+      · cases h
+      · rename_i els he; cases h; exact goSet_length he
+    · split at h
+      · cases h
+      · split at h
+        · cases h
+        · rename_i els he; cases h; exact goSet_length he
+
 end CS
 
 /-! ## Refinement of the step function to a pair of FIFO lists -/
@@ -510,7 +599,17 @@ def specQ (st : List Nat × List Nat) : QOp → List Nat × List Nat
   | .clear => ([], st.2)
   | .swap => (st.2, st.1)
   | .deepAssign => (st.2, st.2)
+  | .indexSet pos v => if 0 ≤ pos ∧ pos < st.1.length then (st.1.set pos.toNat v, st.2) else st
   | _ => st
+
+/-- Documented use: a store through `IndexRef` only at a position inside the queue (a negative position panics
+and is harmless; a position beyond the end may silently write a cell outside the live window). -/
+def QOp.ok (a : List Nat) : QOp → Prop
+  | .indexSet pos _ => pos < a.length
+  | _ => True
+
+instance (a : List Nat) (op : QOp) : Decidable (QOp.ok a op) := by
+  cases op <;> unfold QOp.ok <;> infer_instance
 
 /-- What the reference allows as observation of `op` on a queue with content `a`. -/
 def QObsOk (a : List Nat) : QOp → QObs → Prop
@@ -525,13 +624,14 @@ def QObsOk (a : List Nat) : QOp → QObs → Prop
     (pos < 0 → o = .panic) ∧
     (0 ≤ pos → pos < a.length → ∃ x, a[pos.toNat]? = some x ∧ o = .val x) ∧
     (a.length ≤ pos → o = .panic ∨ o = .val 0)
+  | .indexSet pos _, o => (pos < 0 → o = .panic) ∧ (0 ≤ pos → pos < a.length → o = .done)
   | .len, o => o = .int a.length
   | .cap, o => ∃ c : Int, o = .int c ∧ a.length ≤ c
   | .slices, o => ∃ s1 s2, o = .two s1 s2 ∧ s1 ++ s2 = a
 
 namespace CS
 
-theorem apply_refines (s o : CS) (hs : Inv s) (ho : Inv o) (op : QOp) :
+theorem apply_refines (s o : CS) (hs : Inv s) (ho : Inv o) (op : QOp) (hok : QOp.ok (abs s) op) :
     Inv (apply (s, o) op).1.1 ∧ Inv (apply (s, o) op).1.2 ∧
     (abs (apply (s, o) op).1.1, abs (apply (s, o) op).1.2) = specQ (abs s, abs o) op ∧
     QObsOk (abs s) op (apply (s, o) op).2 := by
@@ -566,6 +666,17 @@ theorem apply_refines (s o : CS) (hs : Inv s) (ho : Inv o) (op : QOp) :
     · rcases i3 hl with h | h
       · left; rw [h]
       · right; rw [h]
+  | indexSet pos v =>
+    simp only [QOp.ok, abs_length] at hok
+    by_cases h0 : pos < 0
+    · simp only [apply, indexSet_neg _ pos v h0, specQ, QObsOk]
+      rw [if_neg (by omega)]
+      exact ⟨hs, ho, rfl, fun _ => trivial, fun h => by omega⟩
+    · obtain ⟨p, rfl⟩ := Int.eq_ofNat_of_zero_le (by omega : 0 ≤ pos)
+      obtain ⟨s', e, hi', ha', _⟩ := indexSet_spec els r w hs p v (by omega)
+      simp only [apply, e, specQ, QObsOk]
+      rw [if_pos (by rw [abs_length]; simp only; omega)]
+      exact ⟨hi', ho, by rw [ha']; simp, fun h => by omega, fun _ _ => trivial⟩
   | reserve n =>
     obtain ⟨s', e, hi', ha', _⟩ := reserve_spec els r w hs n
     simp only [apply, e, specQ, QObsOk]
@@ -599,20 +710,30 @@ def ObsListOk : List Nat × List Nat → List QOp → List QObs → Prop
   | st, op :: ops, o :: os => QObsOk st.1 op o ∧ ObsListOk (specQ st op) ops os
   | _, _, _ => False
 
+/-- Every `IndexRef` store of the history is at a position inside the queue at that time (decidable guard). -/
+def OpsOk : List Nat × List Nat → List QOp → Prop
+  | _, [] => True
+  | st, op :: ops => QOp.ok st.1 op ∧ OpsOk (specQ st op) ops
+
+instance OpsOk.dec : ∀ (st : List Nat × List Nat) (ops : List QOp), Decidable (OpsOk st ops)
+  | _, [] => isTrue trivial
+  | st, op :: ops =>
+    have := OpsOk.dec (specQ st op) ops
+    (inferInstance : Decidable (QOp.ok st.1 op ∧ OpsOk (specQ st op) ops))
+
 namespace CS
 
-theorem run_refines : ∀ (ops : List QOp) (s o : CS), Inv s → Inv o →
+theorem run_refines : ∀ (ops : List QOp) (s o : CS), Inv s → Inv o → OpsOk (abs s, abs o) ops →
     Inv (run (s, o) ops).1.1 ∧ Inv (run (s, o) ops).1.2 ∧
     (abs (run (s, o) ops).1.1, abs (run (s, o) ops).1.2) = ops.foldl specQ (abs s, abs o) ∧
     ObsListOk (abs s, abs o) ops (run (s, o) ops).2 := by
   intro ops
   induction ops with
-  | nil => intro s o hs ho; exact ⟨hs, ho, rfl, trivial⟩
+  | nil => intro s o hs ho _; exact ⟨hs, ho, rfl, trivial⟩
   | cons op ops ih =>
-    intro s o hs ho
-    obtain ⟨h1, h2, h3, h4⟩ := apply_refines s o hs ho op
-    have e : apply (s, o) op = (((apply (s, o) op).1.1, (apply (s, o) op).1.2), (apply (s, o) op).2) := rfl
-    obtain ⟨g1, g2, g3, g4⟩ := ih _ _ h1 h2
+    intro s o hs ho hok
+    obtain ⟨h1, h2, h3, h4⟩ := apply_refines s o hs ho op hok.1
+    obtain ⟨g1, g2, g3, g4⟩ := ih _ _ h1 h2 (by rw [h3]; exact hok.2)
     simp only [run, List.foldl_cons]
     rw [← h3]
     exact ⟨g1, g2, g3, h4, by rw [← h3]; exact g4⟩
@@ -653,6 +774,13 @@ theorem apply_cap (s o : CS) (hs : Inv s) (op : QOp) (h1 : op ≠ .swap) (h2 : o
     exact ⟨by omega, trivial, fun n hn => by cases hn⟩
   | swap => exact absurd rfl h1
   | deepAssign => exact absurd rfl h2
+  | indexSet pos v =>
+    cases e : indexSet ⟨els, r, w⟩ pos v with
+    | none => simp only [apply, e]; exact ⟨Int.le_refl _, trivial, fun n hn => by cases hn⟩
+    | some s' =>
+      have := indexSet_length e
+      simp only [apply, e, cap]
+      exact ⟨by simp only at this; omega, trivial, fun n hn => by cases hn⟩
   | front => exact ⟨Int.le_refl _, rfl, fun n hn => by cases hn⟩
   | index pos => exact ⟨Int.le_refl _, rfl, fun n hn => by cases hn⟩
   | len => exact ⟨Int.le_refl _, rfl, fun n hn => by cases hn⟩
